@@ -11,8 +11,14 @@
 __all__ = []
 
 
+def _options(obj):
+    # The output shape keeps the options of the input shape; otherwise, e.g. a knot vector which is not normalized
+    # would be normalized and the converted shape would not evaluate at the parameters of the input shape
+    return dict(normalize_kv=obj._kv_normalize, find_span_func=obj._span_func, precision=obj._precision)
+
+
 def convert_curve(incrv, outtype):
-    outcrv = outtype.Curve()
+    outcrv = outtype.Curve(**_options(incrv))
     outcrv.degree = incrv.degree
     outcrv.ctrlpts = incrv.ctrlpts
     outcrv.knotvector = incrv.knotvector
@@ -20,7 +26,7 @@ def convert_curve(incrv, outtype):
 
 
 def convert_surface(insrf, outtype):
-    outsrf = outtype.Surface()
+    outsrf = outtype.Surface(**_options(insrf))
     outsrf.degree_u = insrf.degree_u
     outsrf.degree_v = insrf.degree_v
     outsrf.ctrlpts_size_u = insrf.ctrlpts_size_u
@@ -32,7 +38,7 @@ def convert_surface(insrf, outtype):
 
 
 def convert_volume(invol, outtype):
-    outvol = outtype.Volume()
+    outvol = outtype.Volume(**_options(invol))
     outvol.degree_u = invol.degree_u
     outvol.degree_v = invol.degree_v
     outvol.degree_w = invol.degree_w
